@@ -21,6 +21,9 @@ class Boom13(Exception):
     pass
 
 
+FAIL_NOW = set()    # (instance tag, node): setup nodes that raise when entered (an operation that fails for an outside reason)
+
+
 def gen(rng, max_n=7):
     n = rng.randint(2, max_n)
     specs = []
@@ -57,7 +60,7 @@ def make_node(i, s):
     def body(*a):
         COUNTS[(CUR[0], i)] = COUNTS.get((CUR[0], i), 0) + 1
         control.node_enter(i)
-        if s["failx"] and s["usearg"] and a[-2] == 13:
+        if (s["failx"] and s["usearg"] and a[-2] == 13) or (CUR[0], i) in FAIL_NOW:
             raise Boom13(i)
         return None if s.get("retnone") else ("n%d" % i,) + tuple(a)
 
@@ -182,6 +185,17 @@ def gen_ops(rng, sc, length, kinds):
             ops.append(dict(op="exec", inst=inst, T=T, args=args))
         elif k == "setup":
             ops.append(dict(op="setup", inst=inst, T=None))
+        elif k == "setupfail":
+            # a setup() that FAILS for an outside reason in one of its setup nodes (after others may have completed):
+            # the instance must be left as it was; a later setup() / call starts from scratch
+            if setups:
+                # preferably a setup node that has setup predecessors: they have completed when it fails
+                deep_ = [i for i in setups if sc["specs"][i]["preds"]]
+                ops.append(dict(op="setupfail", inst=inst, node=rng.choice(deep_ if deep_ and rng.random() < 0.7 else setups), T=None))
+                if rng.random() < 0.7:
+                    ops.append(rng.choice([dict(op="setup", inst=inst, T=None), dict(op="call", inst=inst, args=args)]))
+            else:
+                ops.append(dict(op="setup", inst=inst, T=None))
         elif k == "setupsel":
             T = sorted(rng.sample(range(n), rng.randint(0 if rng.random() < 0.25 else 1, min(2, n))))
             ops.append(dict(op="setup", inst=inst, T=T))
@@ -319,6 +333,20 @@ def run_history(sc, ops):
             sel = setups if T is None else [i for i in anc_closure(sc, T) if sc["specs"][i]["setup"]]
             rec["out"] = attempt(lambda: ex.setup())
             rec["line"] = len(lines); lines.append("O %d setup %d %s" % (inst, len(sel), " ".join(map(str, sel))))
+        elif op["op"] == "setupfail":
+            FAIL_NOW.add((tag, op["node"]))
+            try:
+                rec["out"] = attempt(lambda: d.setup())
+            finally:
+                FAIL_NOW.clear()
+            if rec["out"][0] == "OK":
+                # the chosen node was set up already, so it did not run: an ordinary setup()
+                rec["line"] = len(lines); lines.append("O %d setup %d %s" % (inst, len(setups), " ".join(map(str, setups))))
+            else:
+                rec["entered_elsewhere"] = True     # a failed operation: no model line, the instance is unchanged
+                rec["entered"], rec["dups"] = counters_delta(before, tag, n)
+                records.append(rec)
+                continue
         elif op["op"] == "setup":
             T = op["T"]
             sel = setups if T is None else [i for i in anc_closure(sc, T) if sc["specs"][i]["setup"]]
